@@ -41,6 +41,13 @@ func plan(tier string, seed int64) []driver.Case {
 					}
 				}
 			}
+			// the subscription context is cancelled (before subscribing / after the first notification): ToChannel
+			// carries the whole materialised sequence all the same - only unsubscription cuts it
+			nAll := len(sc)
+			for _, when := range []string{"before", "mid"} {
+				cases = append(cases, driver.Case{ID: fmt.Sprintf("tochannel/%s/cap%d/puppet/eager/cut%d/ctx-cancelled-%s", sc, cp, nAll, when),
+					P: map[string]string{"kind": "tochannel", "script": sc.String(), "cap": fmt.Sprint(cp), "drive": "puppet", "reader": "eager", "cut": fmt.Sprint(nAll), "ctxcancel": when}})
+			}
 			// FromChannel
 			n := 0
 			for _, x := range sc {
@@ -120,7 +127,15 @@ func runToChannel(c driver.Case) driver.Result {
 	hand := rec.New("handout")
 	var chans []<-chan ro.Notification[int]
 	var mu sync.Mutex
-	sub := ro.ToChannel[int](cp)(s.Observable()).Subscribe(rec.RawWith[<-chan ro.Notification[int]](hand, func(ch <-chan ro.Notification[int]) string {
+	ctx, cancel := context.WithCancel(context.Background())
+	defer cancel()
+	if c.Get("ctxcancel") != "" {
+		what += ", subscription context cancelled (" + c.Get("ctxcancel") + ")"
+	}
+	if c.Get("ctxcancel") == "before" {
+		cancel()
+	}
+	sub := ro.ToChannel[int](cp)(s.Observable()).SubscribeWithContext(ctx, rec.RawWith[<-chan ro.Notification[int]](hand, func(ch <-chan ro.Notification[int]) string {
 		mu.Lock()
 		chans = append(chans, ch)
 		mu.Unlock()
@@ -168,6 +183,9 @@ func runToChannel(c driver.Case) driver.Result {
 			for i, n := range sc {
 				if cut >= 0 && i >= cut {
 					return
+				}
+				if i == 1 && c.Get("ctxcancel") == "mid" {
+					cancel()
 				}
 				func() {
 					defer func() {
